@@ -18,6 +18,8 @@ import (
 	"sort"
 	"strconv"
 	"strings"
+	"sync"
+	"time"
 
 	"github.com/openGemini/openGemini/lib/util/lifted/influx/influxql"
 	"github.com/openGemini/openGemini/lib/util/lifted/vm/protoparser/influx"
@@ -28,9 +30,12 @@ import (
 func init() { cmds["replay-wal"] = replayWal }
 
 type walStep struct {
-	A string `json:"a"` // Write | Flush
-	W int64  `json:"w"`
-	K string `json:"k"`
+	A    string `json:"a"` // Write | Flush | Drop
+	W    int64  `json:"w"`
+	K    string `json:"k"`
+	S    string `json:"s"`    // Write: the series of cell k (cells with the same s share one series)
+	Kind string `json:"kind"` // Flush: "forced" (ForceFlush) | "auto" (started by the shard's snapshot ticker)
+	At   string `json:"at"`   // Write: where the flush in progress stood when the write started ("idle" = none)
 }
 
 type walCase struct {
@@ -40,6 +45,7 @@ type walCase struct {
 	Thorough bool      `json:"thorough"`
 	Parts    int       `json:"parts"`   // WAL partitions (0 = from seed)
 	OnlyAt   []int     `json:"only_at"` // replay: restrict crash points to these event numbers
+	Pre      int       `json:"pre"`     // number of leading steps (warm-up) during which no image is taken
 }
 
 type walResult struct {
@@ -53,12 +59,21 @@ type walResult struct {
 	Events            int                      `json:"events"`
 	Known             map[string]int           `json:"known,omitempty"`
 	KnownEx           string                   `json:"known_example,omitempty"`
+	KnownExs          map[string]string        `json:"known_examples,omitempty"` // first example per finding
 	Trace             []crashfs.Event          `json:"trace,omitempty"`
 	At                int                      `json:"at,omitempty"`
 	Hang              bool                     `json:"hang,omitempty"`
 	IndexInconclusive int                      `json:"index_inconclusive"`
 	Parts             int                      `json:"parts"`
 	Tev               []map[string]interface{} `json:"tev,omitempty"` // spec-level event trace of the run (Mode C)
+	Ser               map[string]string        `json:"ser,omitempty"` // cell -> series of the run (Mode C)
+	AutoFlushes       int                      `json:"auto_flushes"`   // flushes performed by the shard's snapshot ticker
+	ForcedFlushes     int                      `json:"forced_flushes"`
+	AutoImages        int                      `json:"auto_images"`    // images taken inside automatic flushes
+	InsideWrites      int                      `json:"inside_writes"`  // writes executed while a flush was held at one of its steps
+	IndexFlushes      int                      `json:"index_flushes"`  // index flushes (raw items -> part) observed
+	IndexImages       int                      `json:"index_images"`   // images taken after file operations of the series index
+	TwoFileImages     int                      `json:"two_file_images"` // images in which one log partition holds two or more files
 }
 
 // a cell of the specification = (measurement, series, timestamp, field) of the real store
@@ -82,6 +97,8 @@ type walImage struct {
 	dir      string
 	tornFile string // relative path of the WAL file just written (candidate for torn variants)
 	tornLen  int
+	auto     bool   // taken while an automatic (ticker-started) flush was in progress
+	idx      string // taken after a file operation of the series index (not a data event): its description
 }
 
 type cellTable map[string]int64
@@ -127,11 +144,14 @@ type walRunner struct {
 	root     string
 	dir      string
 	rec      *crashfs.Recorder
+	gate     *walGate
+	ser      map[string]string // cell -> series name of the specification
 	res      *walResult
 	images   []walImage
 	nimg     int
 	dropKeys map[string]bool
 	stepDone map[int]int // history step -> number of the last data event it produced
+	dropWal  map[int]int // Drop step -> number of the first log removal of its flush (from there on its snapshot is committed / discarded)
 }
 
 func (r *walRunner) point(k string, w int64) engx.Pt {
@@ -266,8 +286,12 @@ func (r *walRunner) committedUpTo(flushRenames map[int][]int, n int) int {
 	c := -1
 	for st := range r.c.Hist {
 		if r.c.Hist[st].A == "Drop" {
-			// a finished DROP MEASUREMENT has flushed everything before it
+			// a finished DROP MEASUREMENT has flushed everything before it; one in flight has done so from the
+			// first log removal of its flush on (the log goes only after the data files are in place)
 			if end, ok := r.stepDone[st]; ok && end <= n && st > c {
+				c = st
+			}
+			if first := r.dropWal[st]; first > 0 && first <= n && st > c {
 				c = st
 			}
 			continue
@@ -387,6 +411,12 @@ func (r *walRunner) known(id, example string) {
 	if r.res.KnownEx == "" {
 		r.res.KnownEx = example
 	}
+	if r.res.KnownExs == nil {
+		r.res.KnownExs = map[string]string{}
+	}
+	if r.res.KnownExs[id] == "" {
+		r.res.KnownExs[id] = example
+	}
 }
 
 func runWalCase(c *walCase, root string) (res walResult) {
@@ -399,50 +429,100 @@ func runWalCase(c *walCase, root string) (res walResult) {
 		}
 	}()
 	rng := rand.New(rand.NewSource(c.Seed*7919 + int64(c.ID)))
-	r := &walRunner{c: c, rng: rng, root: root, res: &res, rec: crashfs.Install()}
+	rec, gate := installWalGate()
+	r := &walRunner{c: c, rng: rng, root: root, res: &res, rec: rec, gate: gate}
 	r.parts = c.Parts
 	if r.parts == 0 {
 		r.parts = 1 + rng.Intn(3)
 	}
 	c.Parts = r.parts
-	cm := cellMaps[rng.Intn(len(cellMaps))]
+	// Concretisation. The specification says which cells share a series (field s of a Write); the harness
+	// picks measurement / host per series and (time, field) per cell of a series from the seed.
 	r.cells = map[string]cellConc{}
-	keys := map[string]bool{}
+	serOfKey := map[string]string{}
 	for _, st := range c.Hist {
 		if st.A == "Write" {
-			keys[st.K] = true
+			sname := st.S
+			if sname == "" || sname == "-" {
+				sname = st.K // histories without series information: every cell its own series
+			}
+			if old, ok := serOfKey[st.K]; ok && old != sname {
+				res.Infra = fmt.Sprintf("cell %s has two series in the history (%s, %s)", st.K, old, sname)
+				return
+			}
+			serOfKey[st.K] = sname
 		}
 	}
-	var ks []string
-	for k := range keys {
+	var ks, sers []string
+	seenSer := map[string]bool{}
+	for k := range serOfKey {
 		ks = append(ks, k)
 	}
 	sort.Strings(ks)
-	for i, k := range ks {
-		r.cells[k] = cm[i%len(cm)]
+	for _, k := range ks {
+		if !seenSer[serOfKey[k]] {
+			seenSer[serOfKey[k]] = true
+			sers = append(sers, serOfKey[k])
+		}
 	}
 	r.dropKeys = map[string]bool{}
 	r.stepDone = map[int]int{}
+	r.dropWal = map[int]int{}
 	hasDrop := false
 	for _, st := range c.Hist {
 		if st.A == "Drop" {
 			hasDrop = true
 		}
 	}
+	seriesVariants := [][][2]string{ // (measurement, host) of the 1st, 2nd, 3rd series
+		{{"m", "a"}, {"m", "b"}, {"m", "c"}},
+		{{"m", "a"}, {"m2", "a"}, {"m", "b"}}, // two measurements
+		{{"m", "b"}, {"m", "a"}, {"m2", "b"}},
+	}
+	cellVariants := [][]struct {
+		t int64
+		f string
+	}{
+		{{1, "f1"}, {2, "f1"}, {3, "f1"}}, // one field, increasing times
+		{{1, "f1"}, {1, "f2"}, {2, "f1"}}, // same row, two fields
+		{{5, "f1"}, {1, "f1"}, {3, "f1"}}, // out-of-order times
+	}
+	sv := seriesVariants[rng.Intn(len(seriesVariants))]
+	cv := cellVariants[rng.Intn(len(cellVariants))]
 	if hasDrop {
-		// the specification's DropKeys = {"k3"}: k3 lives in measurement m2, everything else in m
-		other := []cellConc{{"m", "a", 1, "f1"}, {"m", "a", 2, "f1"}, {"m", "b", 1, "f1"}}
-		j := 0
-		for _, k := range ks {
-			if k == "k3" {
-				r.cells[k] = cellConc{"m2", "a", 1, "f1"}
-				r.dropKeys[k] = true
-			} else {
-				r.cells[k] = other[j%len(other)]
-				j++
+		// the specification's DropKeys = {"k3"}: the series of k3 is the only one in measurement m2
+		sv = [][2]string{{"m", "a"}, {"m", "b"}, {"m", "c"}}
+	}
+	nInSer := map[string]int{}
+	serIdx := map[string]int{}
+	for i, sname := range sers {
+		serIdx[sname] = i
+	}
+	if hasDrop {
+		if s3, ok := serOfKey["k3"]; ok {
+			for k, sname := range serOfKey {
+				if sname == s3 && k != "k3" {
+					res.Infra = "history with DROP MEASUREMENT puts " + k + " into the series of k3"
+					return
+				}
 			}
 		}
 	}
+	r.ser = map[string]string{}
+	for _, k := range ks {
+		sname := serOfKey[k]
+		mh := sv[serIdx[sname]%len(sv)]
+		j := nInSer[sname]
+		nInSer[sname]++
+		cc := cellConc{mh[0], mh[1], cv[j%len(cv)].t, cv[j%len(cv)].f}
+		if hasDrop && k == "k3" {
+			cc = cellConc{"m2", "a", 1, "f1"}
+			r.dropKeys[k] = true
+		}
+		r.cells[k] = cc
+		r.ser[k] = sname
+	}
+	res.Ser = r.ser
 	r.dir = filepath.Join(root, fmt.Sprintf("w%d", c.ID))
 	imgRoot := filepath.Join(root, fmt.Sprintf("w%d-img", c.ID))
 	defer os.RemoveAll(r.dir)
@@ -454,17 +534,41 @@ func runWalCase(c *walCase, root string) (res walResult) {
 		res.Infra = "open: " + err.Error()
 		return
 	}
-	// phase 1: run the history with the recorder on, freezing images
+	// phase 1: run the history with the recorder on, freezing images. The harness never makes the
+	// series index durable (or searchable) itself here: what an image holds of the index is what the
+	// engine's own flushes - the synchronous one in writeSnapshot, the index's background flusher -
+	// had put on disk at that instant.
 	only := map[int]bool{}
 	for _, n := range c.OnlyAt {
 		only[n] = true
 	}
+	var hk sync.Mutex // guards the variables shared between the hooks (engine goroutines) and the driver
 	curStep, inflight := -1, false
+	flushKey := -1       // history step of the Flush / Drop whose file operations are going on
+	autoNow := false     // an automatic flush is in progress
+	var auto *walAuto    // set while an automatic flush is requested
+	lastN := 0           // number of the last data event
 	stepOfWalWrite := map[int]int{}
 	flushRenames := map[int][]int{}
+	tev := func(m map[string]interface{}) {
+		hk.Lock()
+		res.Tev = append(res.Tev, m)
+		hk.Unlock()
+	}
 	take := func(ev crashfs.Event) bool {
+		if curStep < c.Pre {
+			return false // warm-up prefix of the history: executed and checked like the rest, but no images
+		}
 		if len(only) > 0 {
+			if ev.N == 0 {
+				return only[lastN]
+			}
 			return only[ev.N]
+		}
+		if ev.Class == "index" {
+			// the durable point of an index flush / merge; thorough: every rename and remove of the index
+			commit, _ := walIndexTxnCommit(r.dir, ev)
+			return commit || (c.Thorough && (ev.Op == "rename" || ev.Op == "remove"))
 		}
 		if c.Thorough {
 			return true
@@ -481,86 +585,206 @@ func runWalCase(c *walCase, root string) (res walResult) {
 	}
 	r.rec.Start(r.dir)
 	r.rec.After = func(ev crashfs.Event) {
-		if ev.Class == "index" || ev.N == 0 || ev.Class == "other" && strings.Contains(ev.Path, "/logs/") {
+		if ev.Class == "other" && strings.Contains(ev.Path, "/logs/") {
 			return
 		}
-		if ev.Class == "wal" && ev.Op == "write" && curStep >= 0 && c.Hist[curStep].A == "Write" {
-			stepOfWalWrite[ev.N] = curStep
-		}
-		// Mode C: classify the mutation as a specification action
-		switch {
-		case ev.Class == "wal" && ev.Op == "write":
-			if part, _, ok := walPartOf(ev.Path); ok {
-				res.Tev = append(res.Tev, map[string]interface{}{"ev": "WriteWal", "p": part + 1})
+		hk.Lock()
+		defer hk.Unlock()
+		if ev.Class == "index" {
+			if _, raw := walIndexTxnCommit(r.dir, ev); raw {
+				// Mode C: in-memory items of the series index reached the disk
+				res.Tev = append(res.Tev, map[string]interface{}{"ev": "IndexFlush"})
+				res.IndexFlushes++
 			}
-		case ev.Class == "wal" && ev.Op == "remove":
-			if part, _, ok := walPartOf(ev.Path); ok {
-				res.Tev = append(res.Tev, map[string]interface{}{"ev": "FlushRemoveWal", "p": part + 1})
+		} else {
+			if ev.N == 0 {
+				return
 			}
-		case ev.Class == "init" && ev.Op == "create":
-			res.Tev = append(res.Tev, map[string]interface{}{"ev": "FlushInit"})
-		case ev.Op == "rename" && (ev.Class == "init" || ev.Class == "tssp"):
-			res.Tev = append(res.Tev, map[string]interface{}{"ev": "FlushRename"})
-		}
-		if ev.Op == "rename" && curStep >= 0 && curStep < len(c.Hist) && (c.Hist[curStep].A == "Flush" || c.Hist[curStep].A == "Drop") {
-			flushRenames[curStep] = append(flushRenames[curStep], ev.N)
+			lastN = ev.N
+			if auto != nil {
+				auto.begun()
+			}
+			if ev.Class == "wal" && ev.Op == "write" && curStep >= 0 && curStep < len(c.Hist) && c.Hist[curStep].A == "Write" && inflight {
+				stepOfWalWrite[ev.N] = curStep
+			}
+			// Mode C: classify the mutation as a specification action
+			switch {
+			case ev.Class == "wal" && ev.Op == "write":
+				if part, _, ok := walPartOf(ev.Path); ok {
+					res.Tev = append(res.Tev, map[string]interface{}{"ev": "WriteWal", "p": part + 1})
+				}
+			case ev.Class == "wal" && ev.Op == "remove":
+				if part, _, ok := walPartOf(ev.Path); ok {
+					res.Tev = append(res.Tev, map[string]interface{}{"ev": "FlushRemoveWal", "p": part + 1})
+				}
+			case ev.Class == "init" && ev.Op == "create":
+				res.Tev = append(res.Tev, map[string]interface{}{"ev": "FlushInit"})
+			case ev.Op == "rename" && (ev.Class == "init" || ev.Class == "tssp"):
+				res.Tev = append(res.Tev, map[string]interface{}{"ev": "FlushRename"})
+			}
+			if ev.Op == "rename" && flushKey >= 0 {
+				flushRenames[flushKey] = append(flushRenames[flushKey], ev.N)
+			}
+			if ev.Class == "wal" && ev.Op == "remove" && flushKey >= 0 && c.Hist[flushKey].A == "Drop" && r.dropWal[flushKey] == 0 {
+				r.dropWal[flushKey] = ev.N
+			}
 		}
 		if !take(ev) {
 			return
 		}
-		img := filepath.Join(imgRoot, fmt.Sprintf("i%d", ev.N))
+		name := fmt.Sprintf("i%d", ev.N)
+		if ev.N == 0 {
+			name = fmt.Sprintf("i%d-x%d", lastN, ev.X)
+		}
+		img := filepath.Join(imgRoot, name)
 		if err := engx.CopyTree(r.dir, img); err != nil {
 			res.Infra = "copy: " + err.Error()
 			return
 		}
-		wi := walImage{at: ev.N, step: curStep, inflight: inflight, dir: img}
+		wi := walImage{at: lastN, step: curStep, inflight: inflight, dir: img, auto: autoNow}
+		if ev.N == 0 {
+			wi.idx = fmt.Sprintf("index event %d (%s %s)", ev.X, ev.Op, filepath.Base(ev.Path))
+		}
 		if ev.Class == "wal" && ev.Op == "write" {
 			wi.tornFile, wi.tornLen = ev.Path, ev.Size
 		}
+		if autoNow {
+			res.AutoImages++
+		}
 		r.images = append(r.images, wi)
 	}
-	seenSeries := map[string]bool{}
-	for i, st := range c.Hist {
-		curStep = i
+	set := func(f func()) {
+		hk.Lock()
+		f()
+		hk.Unlock()
+	}
+	doWrite := func(i int) bool {
+		st := c.Hist[i]
+		set(func() { curStep, inflight = i, true })
+		tev(map[string]interface{}{"ev": "WriteMem", "k": st.K})
+		if err := e.Write([]engx.Pt{r.point(st.K, st.W)}); err != nil {
+			res.Infra = "write: " + err.Error()
+			return false
+		}
+		set(func() { inflight = false })
+		tev(map[string]interface{}{"ev": "Ack"})
+		r.stepDone[i] = r.rec.LastN()
+		return true
+	}
+	atRank := map[string]int{"switched": 1, "indexed": 2, "committing": 3, "renamed": 4}
+	for i := 0; i < len(c.Hist); i++ {
+		st := c.Hist[i]
 		switch st.A {
 		case "Write":
-			inflight = true
-			res.Tev = append(res.Tev, map[string]interface{}{"ev": "WriteMem", "k": st.K})
-			cc := r.cells[st.K]
-			if err := e.Write([]engx.Pt{r.point(st.K, st.W)}); err != nil {
-				res.Infra = "write: " + err.Error()
+			// a write that the specification started inside a flush the harness is not inside of (the
+			// exported history is a projection) is an ordinary write
+			if !doWrite(i) {
 				return
 			}
-			inflight = false
-			res.Tev = append(res.Tev, map[string]interface{}{"ev": "Ack"})
-			if !seenSeries[cc.mst+"/"+cc.host] {
-				seenSeries[cc.mst+"/"+cc.host] = true
-				e.IndexFlush()
-			}
 		case "Flush":
+			// the writes the specification started while this flush was going on
+			var inside []int
+			for j := i + 1; j < len(c.Hist) && c.Hist[j].A == "Write" && atRank[c.Hist[j].At] > 0; j++ {
+				if len(inside) > 0 && atRank[c.Hist[j].At] < atRank[c.Hist[inside[len(inside)-1]].At] {
+					break
+				}
+				inside = append(inside, j)
+			}
+			isAuto := st.Kind == "auto"
+			set(func() { curStep, inflight, flushKey, autoNow = i, false, i, isAuto })
+			hk.Lock()
 			mark := len(res.Tev)
-			res.Tev = append(res.Tev, map[string]interface{}{"ev": "FlushSwitch"})
-			e.Flush()
+			kind := "forced"
+			if isAuto {
+				kind = "auto"
+			}
+			res.Tev = append(res.Tev, map[string]interface{}{"ev": "FlushSwitch", "kind": kind})
+			hk.Unlock()
+			var reached <-chan struct{}
+			if len(inside) > 0 {
+				reached = r.gate.arm(c.Hist[inside[0]].At)
+			}
+			done := make(chan error, 1)
+			if isAuto {
+				a, err := walAutoStart(e)
+				if err != nil {
+					res.Infra = "auto flush: " + err.Error()
+					return
+				}
+				set(func() { auto = a })
+				go func() { done <- a.wait(20 * time.Second) }()
+			} else {
+				go func() { e.Flush(); done <- nil }()
+			}
+			finished := false
+			for n, j := range inside {
+				if !finished {
+					select {
+					case <-reached:
+					case err := <-done:
+						// the flush ended without reaching the point (nothing to flush): plain writes from here on
+						finished = true
+						done <- err
+					case <-time.After(30 * time.Second):
+						res.Infra = fmt.Sprintf("flush did not reach %q", c.Hist[j].At)
+						r.gate.open()
+						return
+					}
+				}
+				if !doWrite(j) {
+					r.gate.open()
+					return
+				}
+				res.InsideWrites++
+				if finished {
+					continue
+				}
+				if n+1 < len(inside) && c.Hist[inside[n+1]].At != c.Hist[j].At {
+					// next write at a later point of the same flush
+					rel := r.gate.release
+					reached = r.gate.arm(c.Hist[inside[n+1]].At)
+					close(rel)
+				} else if n+1 == len(inside) {
+					r.gate.open()
+				}
+			}
+			if err := <-done; err != nil {
+				res.Infra = "flush: " + err.Error()
+				return
+			}
+			r.gate.open()
+			set(func() { auto = nil })
+			hk.Lock()
 			if len(res.Tev) == mark+1 {
 				res.Tev = res.Tev[:mark] // nothing to flush (empty memtable): ForceFlush was a no-op, not a spec action
 			} else {
 				res.Tev = append(res.Tev, map[string]interface{}{"ev": "FlushEnd"})
+				if isAuto {
+					res.AutoFlushes++
+				} else {
+					res.ForcedFlushes++
+				}
+			}
+			flushKey, autoNow = -1, false
+			hk.Unlock()
+			r.stepDone[i] = r.rec.LastN()
+			if len(inside) > 0 {
+				i = inside[len(inside)-1]
 			}
 		case "Drop":
-			inflight = true
+			set(func() { curStep, inflight, flushKey = i, true, i })
 			if err := e.Eng.DropMeasurement(engx.DB, engx.RP, "m2_0000", []uint64{engx.ShardID}); err != nil {
 				res.Infra = "drop measurement: " + err.Error()
 				return
 			}
-			inflight = false
-			delete(seenSeries, "m2/a")
+			set(func() { inflight, flushKey = false, -1 })
+			r.stepDone[i] = r.rec.LastN()
 		}
-		r.stepDone[i] = r.rec.LastN()
 	}
 	if hasDrop {
 		res.Tev = nil // the trace specification does not model DROP MEASUREMENT: no Mode C for these runs
 	}
-	curStep = len(c.Hist) // everything acknowledged
+	set(func() { curStep = len(c.Hist) }) // everything acknowledged
 	allEvents := r.rec.Stop()
 	var events []crashfs.Event // data events only; events[i].N == i+1
 	for _, ev := range allEvents {
@@ -646,21 +870,86 @@ func runWalCase(c *walCase, root string) (res walResult) {
 			accept = []cellTable{r.expAfter(st)}
 		}
 		inDrop := st >= 0 && st < len(c.Hist) && c.Hist[st].A == "Drop" && img.inflight
-		fullGot := got
-		if inDrop {
-			// the cells of the measurement being dropped may still be there (with their last value) or be gone
+		// dropCells judges the cells of the measurement being dropped in what a restart on this image read: they
+		// may still be there with their last acknowledged value or be gone. The pinned code has a third outcome
+		// (open finding F-C01-3): DROP MEASUREMENT first discards the measurement's unflushed rows together with
+		// their log records and only then removes its data files, so a crash in between shows the value of the
+		// last FLUSHED write - an acknowledged overwrite reverted. Attributed only when the value read is exactly
+		// that one. Returns the table without those cells.
+		dropCells := func(t cellTable, what string, predOverride cellTable, staleOverride bool, refer cellTable) (cellTable, bool) {
 			before := r.expAfter(st - 1)
-			for k := range r.dropKeys {
-				if v, ok := got[k]; ok && v != before[k] {
-					r.fail("%s: cell %s of the measurement being dropped recovered as %d, last acknowledged %d", label, k, v, before[k])
-					res.At = img.at
-					return
+			// what the flushes before this drop had committed
+			cPrev := -1
+			for x := 0; x < st; x++ {
+				if c.Hist[x].A != "Flush" {
+					continue
+				}
+				all := len(flushRenames[x]) > 0
+				for _, rn := range flushRenames[x] {
+					if rn > img.at {
+						all = false
+					}
+				}
+				if all {
+					cPrev = x
 				}
 			}
-			got = r.proj(got)
-			accept = []cellTable{r.proj(before)}
+			flushed := r.expAfter(cPrev)
+			// as-implemented prediction for these cells: the log records still present, replayed over the flushed values
+			files, order := r.walFilesAt(events, stepOfWalWrite, img.at, tornDrop)
+			pred, _ := r.rrReplay(files, order, flushed, cPrev)
+			logged := map[string]bool{}
+			for _, f := range files {
+				for _, x := range f.recs {
+					logged[c.Hist[x].K] = true
+				}
+			}
+			if predOverride != nil {
+				pred = predOverride // crash inside recovery: the prediction of the nested as-implemented model
+			}
+			for k := range r.dropKeys {
+				v, ok := t[k]
+				if !ok || v == before[k] {
+					continue
+				}
+				if rv, same := refer[k]; refer != nil && same && rv == v {
+					continue // what the first recovery gave (judged there)
+				}
+				pv, has := pred[k]
+				switch {
+				case predOverride != nil && has && pv == v && (staleOverride || r.parts >= 2):
+					id := "F-C01-1"
+					if staleOverride {
+						id = "F-C01-2"
+					}
+					r.known(id, fmt.Sprintf("%s%s parts=%d: cell %s of the measurement being dropped reads %d as the as-implemented replay model predicts; last acknowledged %d", label, what, r.parts, k, v, before[k]))
+				case predOverride != nil:
+					r.fail("%s%s: cell %s of the measurement being dropped recovered as %d, last acknowledged %d, first recovery gave %v, as-implemented model predicts %v", label, what, k, v, before[k], refer[k], pred[k])
+					res.At = img.at
+					return nil, false
+				case has && pv == v && !logged[k]:
+					r.known("F-C01-3", fmt.Sprintf("%s%s: cell %s of the measurement being dropped reads %d, the last flushed value; last acknowledged %d", label, what, k, v, before[k]))
+				case has && pv == v && r.dropWal[st] > 0 && r.dropWal[st] <= img.at:
+					// the log files of the drop's flush are removed one by one: the record of the newer write is gone, an older one is left
+					r.known("F-C01-2", fmt.Sprintf("%s%s: cell %s of the measurement being dropped reads %d from a log record that outlived the record of the last acknowledged write (%d)", label, what, k, v, before[k]))
+				case has && pv == v && r.parts >= 2:
+					r.known("F-C01-1", fmt.Sprintf("%s%s parts=%d: cell %s of the measurement being dropped reads %d; acknowledged order gives %d", label, what, r.parts, k, v, before[k]))
+				default:
+					r.fail("%s%s: cell %s of the measurement being dropped recovered as %d, last acknowledged %d, last flushed %v, as-implemented model predicts %v", label, what, k, v, before[k], flushed[k], pred[k])
+					res.At = img.at
+					return nil, false
+				}
+			}
+			return r.proj(t), true
 		}
-		_ = fullGot
+		fullGot := got
+		if inDrop {
+			var ok bool
+			if got, ok = dropCells(got, "", nil, false, nil); !ok {
+				return
+			}
+			accept = []cellTable{r.proj(r.expAfter(st - 1))}
+		}
 		ok := false
 		for _, a := range accept {
 			if equalTables(got, a) {
@@ -708,15 +997,6 @@ func runWalCase(c *walCase, root string) (res walResult) {
 				r.fail("%s: read after nested restart failed: %v", label, err)
 				return
 			}
-			ok3 := false
-			for _, a := range accept {
-				if equalTables(got3, a) {
-					ok3 = true
-				}
-			}
-			if ok3 || equalTables(got3, got) {
-				continue // acceptable, or identical to what the first recovery gave (judged above)
-			}
 			// as-implemented model of a crash inside recovery: the log files not yet removed are
 			// replayed again (one per partition in turn) on top of what is committed by then
 			files, order := r.walFilesAt(events, stepOfWalWrite, img.at, tornDrop)
@@ -735,7 +1015,7 @@ func runWalCase(c *walCase, root string) (res walResult) {
 			c := r.committedUpTo(flushRenames, img.at)
 			base := r.expAfter(c)
 			if renamed {
-				base = got
+				base = fullGot // what the first recovery read (all cells) is what it has committed
 				c = len(r.c.Hist)
 			}
 			pred3, stale3 := r.rrReplay(files, order, base, c)
@@ -745,6 +1025,22 @@ func runWalCase(c *walCase, root string) (res walResult) {
 				idealBase = accept[len(accept)-1]
 			}
 			ideal3 := r.idealReplay(files, idealBase, c)
+			if inDrop {
+				var ok bool
+				if got3, ok = dropCells(got3, fmt.Sprintf(", then a crash inside recovery (after recovery fs event %d)", ni.x), pred3, stale3, fullGot); !ok {
+					return
+				}
+				pred3, ideal3 = r.proj(pred3), r.proj(ideal3)
+			}
+			ok3 := false
+			for _, a := range accept {
+				if equalTables(got3, a) {
+					ok3 = true
+				}
+			}
+			if ok3 || equalTables(got3, got) {
+				continue // acceptable, or identical to what the first recovery gave (judged above)
+			}
 			if equalTables(got3, pred3) && inTables(ideal3, accept) && (stale3 || r.parts >= 2) {
 				id := "F-C01-1"
 				if stale3 {
@@ -788,6 +1084,26 @@ func runWalCase(c *walCase, root string) (res walResult) {
 		if img.at > 0 && img.at <= len(events) {
 			ev := events[img.at-1]
 			label = fmt.Sprintf("crash after fs event %d (%s %s %s) during step %d", img.at, ev.Op, ev.Class, filepath.Base(ev.Path), img.step)
+		}
+		if img.idx != "" {
+			res.IndexImages++
+			label = fmt.Sprintf("crash after %s, which followed fs event %d, during step %d", img.idx, img.at, img.step)
+		}
+		if img.auto {
+			label += " (inside an automatic flush)"
+		}
+		{
+			files, _ := r.walFilesAt(events, stepOfWalWrite, img.at, "")
+			perPart := map[int]int{}
+			for _, f := range files {
+				perPart[f.part]++
+			}
+			for _, n := range perPart {
+				if n >= 2 {
+					res.TwoFileImages++
+					break
+				}
+			}
 		}
 		check(img, label, "", true)
 	}
